@@ -373,13 +373,24 @@ def rdflib_writer_modes(ctx, rng):
     what lands in the file must be classified as the mode that was asked for, and both must parse alike."""
     stmts = gen.statements(rng, rng.randint(1, 5), 3, "rdf11")
     want = sorted(T.norm_events([("stmt", s) for s in {T.norm_stmt(x): x for x in stmts}.values()]), key=repr)
-    for entry in ("graph_serialize", "graph_serialize_options", "graph_serialize_stream_only"):
+    from pyjelly.serialize import flows as F
+    for entry, flow_kind in [("graph_serialize", None), ("graph_serialize_options", None), ("graph_serialize_stream_only", None),
+                             ("graph_serialize", "manual"), ("graph_serialize_options", "manual"),
+                             ("graph_serialize", "bounded"), ("graph_serialize_options", "bounded")]:
         res = {}
         for delimited in (True, False):
             cfg = {"integration": "rdflib", "physical": 1, "entry": entry, "frame_size": 250, "preset": (16, 8, 8), "logical": 1,
                    "generalized": False, "rdf_star": False, "delimited": delimited, "stream_name": ""}
             try:
-                data = pj.serialize(cfg, stmts)
+                if flow_kind:
+                    # the options also carry an explicit flow object - whose kind may 'disagree' with the requested mode
+                    flow = F.ManualFrameFlow(logical_type=1) if flow_kind == "manual" else F.FlatTriplesFrameFlow(frame_size=3)
+                    pj.OPTIONS_OVERRIDE = pj.make_options(cfg, flow=flow)
+                    cfg["explicit_flow"] = flow_kind
+                try:
+                    data = pj.serialize(cfg, stmts)
+                finally:
+                    pj.OPTIONS_OVERRIDE = None
             except Exception as ex:  # noqa: BLE001
                 ctx.observe(f"rdflib-serialize-raised:{type(ex).__name__}")
                 continue
@@ -394,7 +405,7 @@ def rdflib_writer_modes(ctx, rng):
             except Exception as ex:  # noqa: BLE001
                 ctx.violation({"clause": "parse-raised", "cfg": cfg, "stmts": T.to_json(stmts), "header": data[:3].hex(),
                                "summary": f"rdflib {entry} output (delimited={delimited}) does not parse: {type(ex).__name__}"})
-            ctx.case(("rdflib-mode", entry, delimited, data[:3].hex(), len(stmts)), True,
+            ctx.case(("rdflib-mode", entry, flow_kind, delimited, data[:3].hex(), len(stmts)), True,
                      sample={"kind": "rdflib writer mode", "entry": entry, "delimited": delimited, "header": data[:3].hex()})
         # both modes must parse alike; against the input only as a SET (an rdflib store keeps "x" and "x"^^xsd:string
         # apart, the neutral model does not)
